@@ -198,6 +198,11 @@ func (m *UDPMuxDefault) GetConn(ufrag string, addr net.Addr) (net.PacketConn, er
 	}
 
 	muxedConn, ok := m.getConn(ufrag, isIPv6)
+	if ok && muxedConn.isClosed() {
+		// The last handle was closed and the cleanup goroutine has not run yet:
+		// never hand out a dead connection, register a fresh one instead.
+		ok = false
+	}
 	if !ok {
 		muxedConn = m.createMuxedConn(ufrag)
 		go func() {
